@@ -113,7 +113,7 @@ Proof.
   cbn [length] in Hlen. assert (Hlen' : (length f' <= k)%nat) by lia.
   destruct m as [lit|mini fpos tl tll]; cbn [des_go].
   - (* DScan *)
-    destruct (classify c) eqn:EC; try (apply IH; [exact Hlen' | exact I | exact Hinv]).
+    destruct (classify_fx true c) eqn:EC; try (apply IH; [exact Hlen' | exact I | exact Hinv]).
     + apply des_finish_good; [lia | exact Hinv].
     + (* CPct *) cbn [andb]. destruct Hinv as [Hb [Hl [Hh Hp]]].
       rewrite wrapsz_small by lia.
@@ -143,7 +143,7 @@ Proof.
     assert (Hput : forall tl' tll', des_good blen n
               (des_put mini fpos c (fun m1 p1 => des_go true snp rec blen n f' (DDir m1 p1 tl' tll') st))).
     { intros. apply des_put_good; auto. intros. apply IH; [exact Hlen' | split; [assumption | lia] | exact Hinv]. }
-    destruct (classify c) eqn:EC.
+    destruct (classify_fx true c) eqn:EC.
     + exact Hfin.
     + apply Hput.
     + apply Hput.
@@ -151,15 +151,24 @@ Proof.
     + (* CStar *)
       destruct (blen <? d_pos st + LF_SIZEOF_INT) eqn:E; [apply des_stop_good; exact Hinv|].
       apply Z.ltb_ge in E.
-      rewrite wrapsz_small by (rewrite SIZE_MOD_val; lia).
-      set (digits := dec (to_signed (8 * LF_SIZEOF_INT) (le_val (rd_bytes rec (d_pos st) (Z.to_nat LF_SIZEOF_INT))))).
-      replace (LF_MINI_FORMAT_STR_LEN - fpos =? 0) with false by (symmetry; apply Z.eqb_neq; lia).
-      pose proof (zlen_nonneg _ digits) as Hd.
-      destruct (store_bytes_some (takeZ (LF_MINI_FORMAT_STR_LEN - fpos - 1) digits ++ [0]) mini fpos) as [m1 [E1 L1]]; [lia | |].
-      { rewrite zlen_app, zlen_takeZ. change (zlen [0]) with 1. lia. }
-      rewrite E1. destruct Hinv as [Hb [Hl [Hh Hp]]].
-      apply IH; [exact Hlen' | split; [lia | lia] | ].
-      pose proof (wrap32_nonneg (d_pos st + LF_SIZEOF_INT)). repeat split; cbn; lia.
+      set (v := to_signed (8 * LF_SIZEOF_INT) (le_val (rd_bytes rec (d_pos st) (Z.to_nat LF_SIZEOF_INT)))).
+      assert (Hst' : dinv blen n (mkD (d_buf st) (d_loc st) (wrap32 (d_pos st + LF_SIZEOF_INT))
+                                      (Z.max (d_hw st) (d_pos st + LF_SIZEOF_INT)))).
+      { destruct Hinv as [Hb [Hl [Hh Hp]]]. pose proof (wrap32_nonneg (d_pos st + LF_SIZEOF_INT)).
+        repeat split; cbn; lia. }
+      destruct ((v <? 0) && (0 <? fpos) && (rd mini (fpos - 1) =? 46)) eqn:EN.
+      * (* negative precision: the '.' is dropped *)
+        apply andb_true_iff in EN. destruct EN as [EN _]. apply andb_true_iff in EN. destruct EN as [_ EP].
+        apply Z.ltb_lt in EP.
+        apply IH; [exact Hlen' | split; [exact Hmini | lia] | exact Hst'].
+      * rewrite wrapsz_small by (rewrite SIZE_MOD_val; lia).
+        set (digits := dec v).
+        replace (LF_MINI_FORMAT_STR_LEN - fpos =? 0) with false by (symmetry; apply Z.eqb_neq; lia).
+        pose proof (zlen_nonneg _ digits) as Hd.
+        destruct (store_bytes_some (takeZ (LF_MINI_FORMAT_STR_LEN - fpos - 1) digits ++ [0]) mini fpos) as [m1 [E1 L1]]; [lia | |].
+        { rewrite zlen_app, zlen_takeZ. change (zlen [0]) with 1. lia. }
+        rewrite E1.
+        apply IH; [exact Hlen' | split; [lia | lia] | exact Hst'].
     + (* CEll *)
       apply des_put_good; auto. intros m1 Hm1.
       destruct f' as [|c2 f'']; [apply IH; [exact Hlen' | split; [assumption | lia] | exact Hinv]|].
